@@ -129,6 +129,140 @@ def cet_chunk(lists):
     return {'n': n, 'bad': bad, 'solver_s': D.solver_s, 'queries': D.queries}
 
 
+
+# ---- histories over caller-held Term objects and two equations -------------------------------------------------------------------
+
+OBJ_PAIRS = [('x', 'x'), ('x', '-x'), ('x*y', 'y*x'), ('x', 'y'), ('-(a*b)', 'a*b'), ('x/y', '-x')]
+OBJ_LEADS = [None, 'x^2', 'x']
+STR_ARGS = ['x', '-y']
+
+
+def obj_histories(tier):
+    L = 3 if tier == 'quick' else 4
+    ops = [(e, a) for e in (0, 1) for a in ('T0', 'T1', 'S0', 'S1')]
+    out = []
+    for pi, pair in enumerate(OBJ_PAIRS):
+        for li, lead in enumerate(OBJ_LEADS):
+            for n in (2, 3) if L == 3 else (2, 3, 4):
+                for hi, h in enumerate(itertools.product(ops, repeat=n)):
+                    if not any(a[0] == 'T' for _, a in h):
+                        continue
+                    if tier == 'quick' and (hi + pi + li) % 4:
+                        continue
+                    if n == 4 and (hi + pi) % 6:
+                        continue
+                    out.append((pair, lead, h, 'add'))
+            # the documented constructor form: Equation(lhs, desc, rhs=(Term objects ...))
+            for h in itertools.product(('T0', 'T1', 'S0'), repeat=3):
+                out.append((pair, lead, tuple((0, a) for a in h), 'ctor'))
+    return out
+
+
+def run_history(cfg):
+    pair, lead, hist, mode = cfg
+    D = Driver(timeout_ms=10000, max_paths=4000, max_seconds=120)
+    c = [z3.Real('c0'), z3.Real('c1')]
+    D.assume(z3.Real('X_y') != 0, z3.Real('X_x') != 0)
+    out = {'cfg': cfg, 'viol': None, 'unknown': 0, 'accepted': 0, 'rejected': 0}
+
+    def path():
+        env = xenv(D)
+        T = [Term(pair[0]), Term(pair[1])]
+        sign = [T[0].Constant, T[1].Constant]          # the parsed sign of the spelling (+1.0 / -1.0)
+        text = [T[0].Term, T[1].Term]
+        for i in (0, 1):
+            T[i].Constant = SymCoef(c[i])
+        held = [c[0], c[1]]
+        want = [z3.RealVal(0), z3.RealVal(0)]
+        mk = lambda: [Term(lead, is_blob=True)] if lead is not None else []
+        try:
+            if mode == 'ctor':
+                args = [T[int(a[1])] if a[0] == 'T' else STR_ARGS[int(a[1])] for _, a in hist]
+                eqs = [Equation('lhs', '', mk() + args), Equation('other', '', mk())]
+            else:
+                eqs = [Equation('lhs', '', mk()), Equation('other', '', mk())]
+            for e, a in hist:
+                if a[0] == 'T':
+                    i = int(a[1])
+                    if mode != 'ctor':
+                        eqs[e].AddTerm(T[i])
+                    want[e] = want[e] + c[i] * to_z3(text[i], env)
+                else:
+                    if mode != 'ctor':
+                        eqs[e].AddTerm(STR_ARGS[int(a[1])])
+                    want[e] = want[e] + to_z3(STR_ARGS[int(a[1])], env)
+        except (LogicError, SyntaxError, NotImplementedError):
+            out['rejected'] += 1
+            return 'rejected'
+        leadv = to_z3(lead.replace('^', '**'), env) if lead is not None else z3.RealVal(0)
+        goals = []
+        for e in (0, 1):
+            try:
+                got = to_z3(eqs[e].RHS().replace('^', '**'), env)
+            except Untranslatable as ex:
+                if out['viol'] is None:
+                    out['viol'] = {'why': 'rendering of equation %d does not parse: %s' % (e, ex), 'c': ['1', '1']}
+                return 'unparsable'
+            goals.append(got == leadv + want[e])
+        for i in (0, 1):
+            k = T[i].Constant
+            goals.append((k.e if isinstance(k, symx.SymReal) else z3.RealVal(k)) == held[i])
+        r, m = D.holds(z3.And(goals))
+        out['accepted'] += 1
+        if r == 'sat' and out['viol'] is None:
+            which = [i for i, g in enumerate(goals) if not z3.is_true(m.eval(g, model_completion=True))]
+            what = ['equation 0 value', 'equation 1 value', "caller's Term object 0 coefficient changed", "caller's Term object 1 coefficient changed"]
+            out['viol'] = {'why': '; '.join(what[i] for i in which) or 'post fails', 'c': [str(val_fraction(m.eval(ci, model_completion=True))) for ci in c],
+                           'rhs': [eqs[0].RHS(), eqs[1].RHS()]}
+        elif r == 'unknown':
+            out['unknown'] += 1
+        return 'ok'
+    D.run_all(path)
+    out.update(paths=D.paths, forks=D.forks, queries=D.queries, solver_s=D.solver_s, exhaustive=D.exhaustive, dunknown=D.unknown)
+    return out
+
+
+def hist_chunk(cfgs):
+    return [run_history(c) for c in cfgs]
+
+
+REPLAY_HIST = '''
+import sys, random
+from fractions import Fraction as F
+from sfc_models.equation import Equation, Term
+pair, lead, hist, mode, cs = %(pair)r, %(lead)r, %(hist)r, %(mode)r, %(cs)r
+STR_ARGS = %(strs)r
+T = [Term(pair[0]), Term(pair[1])]
+text = [T[0].Term, T[1].Term]
+cf = [float(F(x)) for x in cs]
+for i in (0, 1): T[i].Constant = cf[i]
+mk = lambda: [Term(lead, is_blob=True)] if lead is not None else []
+if mode == 'ctor':
+    eqs = [Equation('lhs', '', mk() + [T[int(a[1])] if a[0] == 'T' else STR_ARGS[int(a[1])] for _, a in hist]), Equation('other', '', mk())]
+else:
+    eqs = [Equation('lhs', '', mk()), Equation('other', '', mk())]
+    for e, a in hist:
+        eqs[e].AddTerm(T[int(a[1])] if a[0] == 'T' else STR_ARGS[int(a[1])])
+bad = False
+for i in (0, 1):
+    if T[i].Constant != cf[i]:
+        print("caller's Term object %%d: coefficient was %%r, is now %%r" %% (i, cf[i], T[i].Constant)); bad = True
+rnd = random.Random(5)
+for trial in range(5):
+    env = {n: rnd.uniform(0.5, 3.0) for n in 'xyab'}
+    ev = lambda t: eval(t.replace('^', '**'), {}, env)
+    want = [ev(lead) if lead is not None else 0.0, ev(lead) if lead is not None else 0.0]
+    for e, a in hist:
+        want[e] += cf[int(a[1])] * ev(text[int(a[1])]) if a[0] == 'T' else ev(STR_ARGS[int(a[1])])
+    for e in (0, 1):
+        got = ev(eqs[e].RHS())
+        if abs(got - want[e]) > 1e-9 * (1 + abs(got) + abs(want[e])):
+            print('equation %%d renders %%r = %%r, lead + signed sum of the added terms = %%r at %%r' %% (e, eqs[e].RHS(), got, want[e], env)); bad = True
+    if bad: break
+print('history', hist, 'objects', pair, 'coefficients', cf)
+sys.exit(1 if bad else 0)
+'''
+
 REPLAY_ADD = '''
 import sys
 from sfc_models.equation import Equation, Term
@@ -233,6 +367,28 @@ def run(tier, seed):
             elif len(chk.samples) < 8 and o['accepted'] > 20:
                 chk.sample({'harness': 'E2 Equation.AddTerm', 'lead': o['cfg'][0], 'merged_terms': o['cfg'][1], 'added': o['cfg'][2], 'paths': o['paths'],
                             'post': 'value(RHS after) == value(RHS before) + value(term) for all coefficients and valuations', 'verdict': 'unsat on every path'})
+    hs = obj_histories(tier)
+    chk.bounds['Term-object histories'] = ('%d histories: up to %d additions into two equations (after lead in %r) of two caller-held Term objects (spellings %r, SYMBOLIC '
+                                           'coefficients, reuse allowed) or strings %r; and the constructor form with 3 right-hand-side items'
+                                           % (len(hs), 3 if tier == 'quick' else 4, OBJ_LEADS, OBJ_PAIRS, STR_ARGS))
+    for st, lst in pmap(hist_chunk, [hs[i::n] for i in range(n)]):
+        if st != 'ok':
+            chk.harness_errors.append(lst[:800])
+            continue
+        for o in lst:
+            chk.count('paths', o['paths']); chk.count('forks', o['forks'])
+            chk.solver_s += o['solver_s']; chk.queries += o['queries']
+            pair, lead, hist, mode = o['cfg']
+            what = 'history %s %r of Term objects %r after lead %r: both equations keep lead + signed sum, caller objects unchanged' % (mode, hist, pair, lead)
+            if not o['exhaustive'] or o['unknown'] or o['dunknown']:
+                chk.ob('unknown', what)
+            else:
+                chk.ob('sat' if o['viol'] else 'unsat', what, distinct=('hist', str(o['cfg'])))
+            if o['viol']:
+                chk.violation('Term-object-history:%s' % o['viol']['why'][:60], '%s: %s' % (what, o['viol']['why']),
+                              REPLAY_HIST % dict(pair=pair, lead=lead, hist=hist, mode=mode, cs=o['viol']['c'], strs=STR_ARGS))
+    chk.sample({'harness': 'E2 Term-object histories', 'histories': len(hs), 'post': 'value(RHS_e) == lead + sum of c_i * term_i added to e, for both equations, '
+                'and the caller-held Term objects keep their coefficients; for all real c0, c1 and valuations'})
     lists = term_lists(tier)
     for st, r in pmap(cet_chunk, [lists[i::32] for i in range(32)]):
         if st != 'ok':
